@@ -100,6 +100,8 @@ def _to_tail(stmts: List[ast.stmt]) -> List[ast.stmt]:
 
 def _walk_stmt(s):
     yield s
+    if isinstance(s, FuncDef + (ast.ClassDef,)):
+        return   # a nested definition: its own returns are not the helper's
     for n in _own_nodes(s):
         yield n
 
@@ -116,8 +118,15 @@ def _eligible(fn: ast.AST) -> bool:
     for n in _own_nodes(fn):
         if isinstance(n, (ast.Yield, ast.YieldFrom, ast.Await, ast.Global, ast.Nonlocal)):
             return False
-        if isinstance(n, FuncDef + (ast.ClassDef,)):
-            return False  # closures over the helper's locals: leave alone
+        if isinstance(n, ast.ClassDef):
+            return False
+        if isinstance(n, FuncDef):
+            # a nested function may move with the body when it is no closure over the helper's own variables
+            own = _stored_names(fn) | {x.arg for x in a.args + a.kwonlyargs}
+            inner_bound = {x.arg for x in n.args.args + n.args.kwonlyargs} | {x.id for x in ast.walk(n) if isinstance(x, ast.Name) and isinstance(x.ctx, ast.Store)}
+            reads = {x.id for x in ast.walk(n) if isinstance(x, ast.Name) and isinstance(x.ctx, ast.Load)} - inner_bound
+            if (reads & (own - {n.name})) or any(isinstance(x, (ast.Nonlocal, ast.Global)) for x in ast.walk(n)):
+                return False  # closures over the helper's locals: leave alone
     body = [copy.deepcopy(s) for s in fn.body if not (isinstance(s, ast.Expr) and isinstance(s.value, ast.Constant) and isinstance(s.value.value, str))]
     return _tail_returns_only(_to_tail(body))
 
